@@ -49,6 +49,53 @@ def crash_oracle(s, out):
     return msgs
 
 
+def search(chk, rnd):
+    """directed search for a concrete failing input when a proof or the correspondence is broken (implementation + oracle
+       only): clean reboot (drop + try_recover) before every fragment of lossy deliveries with late data; the resumed run
+       must report completion at the fragment where peeling over the received fragments can recover everything"""
+    scns = []
+    for _ in range(120 if chk.quick() else 1500):
+        b = v1.build(rnd, "naive", with_prior=False)
+        me = b.meta
+        if not me["lost"] or me["pcap"] < 2:
+            continue
+        seq = [i for i in me["seq"] if 0 < i <= me["n"] + me["pcap"]]
+        if rnd.random() < 0.6:
+            seq = [i for i in seq if i != me["n"] + 1] + sorted(me["lost"])       # first coded fragment lost, late data at the end
+        for p in range(1, len(seq) + 1):
+            s = session.Scn(b.ns, b.slot, b.blk)
+            m = dict(me); m["seq"] = seq; m["pos"] = p
+            m["start_op"] = s.add("start %d %d" % (me["sz"], me["n"]))
+            m["seg_ops"] = []
+            for k, i in enumerate(seq):
+                if k == p:
+                    s.add("drop"); m["rec_op"] = s.add("recover")
+                m["seg_ops"].append(s.add(session.seg_op(me["img"], me["n"], me["sz"], i, False)))
+            if p == len(seq):
+                s.add("drop"); m["rec_op"] = s.add("recover")
+            m["done_op"] = s.add("done"); m["bl_op"] = s.add("bl"); m["hdrs_op"] = s.add("hdrs")
+            for i in range(b.ns):
+                s.add("dump %d %x %d" % (i, session.DRO, me["n"] * me["sz"]))
+            s.meta = m
+            scns.append(s)
+    lines, impl, outs = v1.run(chk, scns, "naive", stream="v1-directed-search", with_model=False)
+    found = 0
+    for s, l, raw, out in zip(scns, lines, impl, outs):
+        if len(out) != len(s.ops):
+            continue
+        me = s.meta
+        want, _ = v1.peel_run(me["n"], me["pcap"], me["seq"], False)
+        got = [out[i][0][:1] for i in me["seg_ops"]]
+        if "F" in want and [g.upper() for g in got] != [w.upper() for w in want]:
+            d = next(i for i, (a, b) in enumerate(zip(got, want)) if a.upper() != b.upper())
+            chk.failures.append(core.Failure("after a clean reboot before fragment #%d (try_recover: %s) fragment #%d (index %d) is answered %s; peeling over the received fragments gives %s" %
+                                             (me["pos"], out[me["rec_op"]][0], d, me["seq"][d], out[me["seg_ops"][d]][0].split(":")[0], want[d]), "session", "naive", l, raw[:2000], key="c19"))
+            found += 1
+            if found >= 3: break
+    chk.cov["streams"]["directed-search(v1 reboot twins)"] = {"cases": len(lines), "found": found}
+    chk.cov["evaluations"] += len(lines)
+
+
 def run(chk):
     chk.prove()
     rnd = random.Random(chk.seed)
@@ -95,6 +142,8 @@ def run(chk):
         for msg in crash_oracle(s, out)[:1]:
             chk.failures.append(core.Failure(msg, "session", "naive", l, raw[:2000], key="c19"))
     chk.note_cases("v1-crash", clines, clines, sample_n=1, dist={"crash_cases": len(clines)})
+    if chk.broken and not chk.failures:
+        search(chk, random.Random(chk.seed + 23))
     return chk.finish(level="proof",
         rule="v1 streams: random geometry (sizes 1..128, counts 1..33, slots 17664..21504 B, 3..6 slots), optional earlier updates, up to 6 lost fragments, coded fragments sampled below the parity capacity, orders (data-then-coded / shuffled / coded-first), duplicates, late data, out-of-range indices; "
              "the same scenarios on the flash-algo-new single-erasure back-end (default and force-full-r) and on original-flash-algo; v1-crash: power loss at every operation boundary of completing deliveries, recovery, identical re-delivery + full data pass; non-trivial = every scenario; distinct by case text",
